@@ -120,6 +120,11 @@ PROFILES = {
     # a restarted server, clients that bind and sit idle across sweeps, long silent subscriptions (gen.run_idle)
     "idle": dict(scripted="idle", apps=["a1", "a2"], sides=["s1", "s2"], names=["1", "x"], client_mbox=["m1"],
                  conns=("c1", "c2", "c3", "c4")),
+    # several apps, each holding some of the short nameplates (the union of all apps' names fills a
+    # class that no single app has filled): what one app is offered must not depend on the others
+    "allociso": dict(apps=["a1", "a2", "a3"], sides=["s1", "s2"], names=["1", "2", "10", "x"], client_mbox=["m1"],
+                     steps=40, conns=("c1", "c2", "c3", "c4"), type_weights=dict(allocate=6, release=2, close=1, add=1),
+                     prefill_spec=dict(spread=True, class1=[9, 9, 12, 14], class2=[0, 0, 90, 100])),
     "allocfull": dict(apps=["a1"], sides=["s1", "s2"], names=["1", "10", "100"], client_mbox=["m1"],
                       steps=25, type_weights=dict(allocate=8, release=2, close=1, add=1), final_quiesce=False,
                       only_props=["C04.a", "C04.b", "C04.c"], skip_prefill_lines=True,
@@ -153,8 +158,11 @@ PLAN = {
               ["fanout", "mailbox", "time", "script", "script2", "reuse", "idle"], ["P02"]),
     # C07.a is C03's premise "for as long as the nameplate lives": an incarnation ends only by the
     # causes C07 lists, so a repeated claim must be told the same id until then
-    "C03": _p(["C03.a", "C03.b", "C03.c", "C03.d", "C07.a"], [("core", 9, 12), ("apps", 8, 11)], ["core", "apps"],
-              ["nameplate", "apps", "crowd", "script", "script2", "reuse"], ["P03"]),
+    # ... and C07.e is the other end of an incarnation: after the last acknowledged release the name is
+    # free, so the next claim starts a new one (also when the release had to be re-sent after a kill)
+    "C03": dict(_p(["C03.a", "C03.b", "C03.c", "C03.d", "C07.a", "C07.e"], [("core", 9, 12), ("apps", 8, 11)], ["core", "apps"],
+                   ["nameplate", "apps", "crowd", "script", "script2", "reuse", "crash", "boundaries"], ["P03"]),
+                variants={"crash": [dict(), dict(usage=True)]}),
     "C05": dict(_p(["C05.a", "C05.b", "C05.c", "C05.keep"], [("core", 9, 12)], ["core"],
                    ["crowd", "crowdrestart", "mailbox", "script", "script2", "reuse"], ["P05"]),
                 # (the F6 witness needs 14 steps: it is replayed on the code and must conform to the
@@ -163,7 +171,7 @@ PLAN = {
     "C06": _p(["C06.frame"], [("apps", 8, 11)], ["apps"], ["apps"], ["P06"],
               pairs=[("iso", 144, 4000)], pairclause="C06.pair"),
     "C07": _p(["C07.a", "C07.b", "C07.c", "C07.d", "C07.e"], [("core", 9, 12), ("apps", 8, 11)],
-              ["core", "apps"], ["nameplate", "apps", "crowd", "script", "script2", "reuse"], ["P07"]),
+              ["core", "apps"], ["nameplate", "apps", "crowd", "script", "script2", "reuse", "crash", "boundaries"], ["P07"]),
     "C08": _p(["C08.a", "C08.b", "C08.c", "C08.d"], [("core", 9, 12)], ["core"],
               ["mailbox", "nameplate", "script", "script2", "reuse", "idle"], ["P08"]),
     "C04": dict(_p(["C04.a", "C04.b", "C04.c"], [("alloc", 8, 11), ("allocnl", 8, 11)], ["core"],
@@ -204,7 +212,7 @@ PLAN = {
                    ["nameplate"], ["P18"], pairs=[("config", 120, 4000)], pairclause="C18.pair"),
                 variants={"nameplate": [dict(allow=True), dict(allow=False), dict(allow=False, usage=True, blur=3)]}),
     "C17": dict(_p(["C17.a", "C17.b", "C17.c", "C17.d", "C17.e", "C17.f", "C17.g"], [("proto", 7, 10), ("apps", 8, 11)],
-                   ["proto"], ["proto", "apps", "script", "script2", "reuse", "idle"], ["P17"]),
+                   ["proto"], ["proto", "apps", "script", "script2", "reuse", "idle", "crowd"], ["P17"]),
                 # the configured welcome notices: none, a message of the day, an error, a version, all three
                 witness_mc=[("apps", 8, "W_F2")],
                 variants={"proto": [dict(), dict(welcome={"motd": "hello \u2603"}),
